@@ -82,14 +82,38 @@ def isSuffixedInt (s : String) : Bool :=
   !digits.isEmpty && !rest.isEmpty && rest.all (fun c => c.isAlphanum) && (rest.head?.map Char.isAlpha).getD false
     && !(rest.head? == some 'e') && !(rest.head? == some 'E') && !(digits == ['0'] && (rest.head? == some 'x' || rest.head? == some 'o' || rest.head? == some 'b'))
 
-/-- literal that syn would classify as an integer literal in a radix / with separators the model does not evaluate -/
+/-- literal starting with a digit that the model cannot classify (radix literal with a suffix, …) -/
 def isOddInt (s : String) : Bool :=
   match s.toList with
   | c :: _ => c.isDigit && !isPlainInt s && !isSuffixedInt s && !s.toList.contains '.' && !(s.toList.any fun c => c == 'e' || c == 'E')
   | [] => false
 
-/-- `Index::parse` succeeds: unsuffixed decimal integer that fits `u32` -/
-def isIndexLit (s : String) : Bool := isPlainInt s && s.toNat! < 4294967296
+/-- value of an unsuffixed integer literal in any radix, `_` separators allowed (`LitInt::base10_digits`) -/
+def radixIntValue (s : String) : Option Nat :=
+  let cs := s.toList.filter (· != '_')
+  let digitsVal (base : Nat) (ds : List Char) : Option Nat :=
+    if ds.isEmpty then none else
+    ds.foldl (fun acc c =>
+      match acc with
+      | none => none
+      | some a =>
+        let v := if c.isDigit then c.toNat - '0'.toNat
+                 else if 'a' ≤ c ∧ c ≤ 'f' then c.toNat - 'a'.toNat + 10
+                 else if 'A' ≤ c ∧ c ≤ 'F' then c.toNat - 'A'.toNat + 10 else 99
+        if v < base then some (a * base + v) else none) (some 0)
+  match cs with
+  | '0' :: 'x' :: r => digitsVal 16 r
+  | '0' :: 'o' :: r => digitsVal 8 r
+  | '0' :: 'b' :: r => digitsVal 2 r
+  | r => if r.all Char.isDigit then digitsVal 10 r else none
+
+/-- `Index::parse` succeeds: unsuffixed integer literal whose value fits `u32` -/
+def isIndexLit (s : String) : Bool :=
+  match radixIntValue s with
+  | some v => v < 4294967296
+  | none => false
+
+def indexValue (s : String) : Nat := (radixIntValue s).getD 0
 
 /-! ### ParseBuffer operations -/
 
@@ -196,7 +220,7 @@ def parseMember (b : Back) : P Member := do
   match (← toks) with
   | .ident s :: r => if isKeyword b s then failLib else do setToks r; return .named s
   | .lit s :: r =>
-    if isIndexLit s then do setToks r; return .unnamed s.toNat!
+    if isIndexLit s then do setToks r; return .unnamed (indexValue s)
     else if isOddInt s then failUnsup "non-decimal integer literal" else failLib
   | _ => failLib
 
